@@ -167,4 +167,5 @@ Definition fchain_path (l : list fstep) : list N := 36 :: render_fsteps l.
 Definition fchain_fun_path (l : list fstep) (fs : list (list N)) : list N := fchain_path l ++ render_funs fs.
 Definition fchain_path0 (s : kstep) (l : list fstep) : list N := rec_body s ++ render_fsteps l.   (* the leading `$` omitted: the first step written bare *)
 Definition fpadded_path (n1 n2 : nat) (l : list fstep) : list N := blanks n1 ++ fchain_path l ++ blanks n2.
+Definition fchain_fun_path0 (s : kstep) (l : list fstep) (fs : list (list N)) : list N := rec_body s ++ render_fsteps l ++ render_funs fs.
 Definition fpadded_fun_path (n1 n2 : nat) (l : list fstep) (fs : list (list N)) : list N := blanks n1 ++ fchain_path l ++ render_funs fs ++ blanks n2.
